@@ -259,7 +259,12 @@ def run_shard(spec, rec):
                                 isinstance(e, ValueError) and 'weather' in str(e)):
                             raise Mismatch('point outside the weather domain not reported as such',
                                            {'error': f'{tn}: {e}', **det})
-                        if kind == 'too-short' and not isinstance(e, GroundTrack.Exception | ValueError):
+                        if kind == 'too-short' and not isinstance(
+                                e, GroundTrack.Exception | ValueError) and not (
+                                # with a low-ceiling table the "short" route is flyable, and
+                                # the permitted outcome of mass iteration is non-convergence
+                                opts.get('iterate_mass') and isinstance(e, RuntimeError)
+                                and 'failed to converge' in str(e)):
                             raise Mismatch('too short a route not reported as such',
                                            {'error': f'{tn}: {e}', **det})
                         if kind == 'ok':
